@@ -22,6 +22,7 @@
 #include <string>
 #include <boost/tokenizer.hpp>
 #include "celma/common/tokenizer_base.hpp"
+#include "celma/common/detail/verif_hook.hpp"
 
 
 namespace celma::common {
@@ -67,6 +68,7 @@ inline const char* Tokenizer::convChar2String( char c)
 {
    static thread_local char  s[ 2] = { 0, 0 };
    s[ 0] = c;
+   CELMA_VERIF_POINT( "tokenizer.conv_char2string");
    return s;
 } // Tokenizer::convChar2String
 
